@@ -5,6 +5,8 @@ import (
 	"sort"
 	"strings"
 
+	"github.com/woodsbury/decimal128"
+
 	"verif/harness/gen"
 	"verif/harness/ref"
 )
@@ -85,6 +87,56 @@ func c13Run(c *Ctx, idx int) {
 	}
 	strKeys := r.Chance(45)
 	keys := c13Keys(r, n, strKeys)
+	// structured orders that sort routines special-case: runs, reversed runs with
+	// ties, all equal, organ pipe, sawtooth (lengths 32, 40, 64, 100 included)
+	shape := "random"
+	if idx%3 == 1 && n >= 2 {
+		if idx%6 == 1 {
+			n = []int{2, 13, 31, 32, 33, 40, 64, 100, 257}[(idx/6)%9]
+			keys = c13Keys(r, n, strKeys)
+		}
+		sorted := append([]ref.V{}, keys...)
+		sort.SliceStable(sorted, func(i, j int) bool { return cmpKeys(sorted[i], sorted[j]) < 0 })
+		switch (idx / 3) % 5 {
+		case 0:
+			shape = "non-decreasing"
+			keys = sorted
+		case 1:
+			shape = "non-increasing"
+			for i, j := 0, len(sorted)-1; i < j; i, j = i+1, j-1 {
+				sorted[i], sorted[j] = sorted[j], sorted[i]
+			}
+			keys = sorted
+		case 2:
+			shape = "organ-pipe"
+			out := make([]ref.V, 0, n)
+			for i := 0; i < len(sorted); i += 2 {
+				out = append(out, sorted[i])
+			}
+			lastOdd := len(sorted) - 1
+			if lastOdd%2 == 0 {
+				lastOdd--
+			}
+			for i := lastOdd; i >= 1; i -= 2 {
+				out = append(out, sorted[i])
+			}
+			keys = out
+		case 3:
+			shape = "sawtooth"
+			out := make([]ref.V, 0, n)
+			for k := 0; k < 4; k++ {
+				for i := k; i < len(sorted); i += 4 {
+					out = append(out, sorted[i])
+				}
+			}
+			keys = out
+		case 4:
+			shape = "two-runs"
+			h := len(sorted) / 2
+			keys = append(append([]ref.V{}, sorted[h:]...), sorted[:h]...)
+		}
+	}
+	n = len(keys)
 	recs := &ref.Arr{E: make([]ref.V, n)}
 	plain := &ref.Arr{E: make([]ref.V, n)}
 	for i, k := range keys {
@@ -98,9 +150,40 @@ func c13Run(c *Ctx, idx int) {
 	doc := ref.NewObj()
 	doc.Set("rs", recs)
 	doc.Set("xs", plain)
-	goDoc := ref.ToGo(doc, ref.JSONNumber)
+	// the Go type carrying numeric keys varies too (a sort fast path per type)
+	mode := ref.NumMode(ref.JSONNumber)
+	kind := "json.Number"
+	switch idx % 5 {
+	case 1:
+		kind = "float64"
+		mode = func(x ref.Num) any {
+			if f, exact := x.R.Float64(); exact {
+				return f
+			}
+			return ref.JSONNumber(x)
+		}
+	case 2:
+		kind = "int"
+		mode = func(x ref.Num) any {
+			if x.R.IsInt() && x.R.Num().IsInt64() {
+				return int(x.R.Num().Int64())
+			}
+			return ref.JSONNumber(x)
+		}
+	case 3:
+		kind = "decimal128"
+		mode = func(x ref.Num) any {
+			if ref.ExactDec(x) {
+				if d, err := decimal128.Parse(ref.NumText(x)); err == nil {
+					return d
+				}
+			}
+			return ref.JSONNumber(x)
+		}
+	}
+	goDoc := ref.ToGo(doc, mode)
 	before := gen.Describe(goDoc)
-	feats := map[string]string{"n": fmt.Sprint(n), "keys": map[bool]string{true: "strings", false: "numbers"}[strKeys]}
+	feats := map[string]string{"n": fmt.Sprint(n), "keys": map[bool]string{true: "strings", false: "numbers"}[strKeys], "shape": shape, "number_kind": kind}
 	dup := 0
 	seen := map[string]bool{}
 	for _, k := range keys {
@@ -345,7 +428,7 @@ func c13Invalid(c *Ctx, idx int) {
 func init() {
 	Register(&Property{
 		ID:            "C13",
-		Rule:          "arrays of records {id: original index, k: key} of lengths {0,1,2,3,11,12,13,14,20,50,200,1000,5000} with heavy key duplication (1..n/4 distinct keys), numeric keys in several spellings of one value (1, 1.0, 1e0, 10e-1), 34th-digit near-ties, string keys across Unicode planes; sort_by (plain, nested and scoped computed keys), sort, min/max, min_by/max_by judged by a direct oracle reading the unique ids: permutation, non-decreasing by exact value / code point, equal keys in original order, extremes extremal and taken from the input, input untouched; arrays with an offending element at every position (incl. single-element arrays) must raise invalid-type; non-trivial = each (query, array) pair; arrays longer than 12 with duplicates counted separately",
+		Rule:          "arrays of records {id: original index, k: key} of lengths {0,1,2,3,11,12,13,14,20,50,200,1000,5000} with heavy key duplication (1..n/4 distinct keys), numeric keys in several spellings of one value (1, 1.0, 1e0, 10e-1), 34th-digit near-ties, string keys across Unicode planes; sort_by (plain, nested and scoped computed keys), sort, min/max, min_by/max_by judged by a direct oracle reading the unique ids: permutation, non-decreasing by exact value / code point, equal keys in original order, extremes extremal and taken from the input, input untouched; arrays with an offending element at every position (incl. single-element arrays) must raise invalid-type; key sequences also in structured orders (non-decreasing, non-increasing with ties, organ pipe, sawtooth, two runs) at lengths 2..257, numeric keys carried as json.Number, float64, int or decimal128;  non-trivial = each (query, array) pair; arrays longer than 12 with duplicates counted separately",
 		MinNontrivial: 2000,
 		Streams: []Stream{
 			{Name: "sorted", N: func(c *Ctx) int { return tierN(c, 3000, 60000) }, Run: c13Run},
